@@ -315,6 +315,42 @@ def rw_drop_inner_use(text, log):
     return text
 
 
+def rw_spawn_calls(text, log):
+    """R14: `thread::spawn(move || CALLEE(ARGS))` -> `spawn__CALLEE(ARGS)`: the spawned call is recorded by a stand-in that demands the callee's
+    precondition at spawn time and returns a join handle carrying the (prophetic) result.  Closures capturing the ghost token are rejected by Verus.
+    Also R15: closure parameter `|_|` -> `|_e|` (Verus rejects `_` closure parameters)."""
+    n = 0
+    while True:
+        st = rtok.sig(rtok.lex(text))
+        hit = None
+        for i in range(len(st) - 8):
+            if st[i][1] == 'thread' and st[i + 1][1] == '::' and st[i + 2][1] == 'spawn' and st[i + 3][1] == '(' and st[i + 4][1] == 'move' and st[i + 5][1] == '||' \
+                    and st[i + 6][0] == 'ident' and st[i + 7][1] == '(':
+                inner_close = rtok.match_close(st, i + 7)
+                outer_close = rtok.match_close(st, i + 3)
+                if outer_close == inner_close + 1:
+                    hit = (i, inner_close, outer_close)
+                    break
+        if hit is None:
+            break
+        i, ic, oc = hit
+        callee = st[i + 6][1]
+        spans = [(st[i][2], st[i + 6][3], 'spawn__' + callee), (st[oc][2], st[oc][3], '')]
+        text = _replace_spans(text, spans)
+        n += 1
+    if n:
+        log.append('R14 %d `thread::spawn(move || f(args))` -> `spawn__f(args)`' % n)
+    st = rtok.sig(rtok.lex(text))
+    spans = []
+    for i in range(len(st) - 2):
+        if st[i][1] == '|' and st[i + 1][1] == '_' and st[i + 2][1] == '|':
+            spans.append((st[i + 1][2], st[i + 1][3], '_e'))
+    if spans:
+        text = _replace_spans(text, spans)
+        log.append('R15 %d closure parameter(s) `|_|` -> `|_e|`' % len(spans))
+    return text
+
+
 def rw_vecslice(text, names, log):
     """R8: `&mut NAME[` -> `&mut NAME.as_mut_slice()[` ; `&NAME[` -> `&NAME.as_slice()[`"""
     st = rtok.sig(rtok.lex(text))
@@ -541,6 +577,8 @@ def build_fn(fs, repo, effectful, table_keys, canary=False):
             text = rw_unwrap_or_else(text, log)
         elif kind == 'and_then':
             text = rw_and_then(text, log)
+        elif kind == 'spawn_calls':
+            text = rw_spawn_calls(text, log)
         elif kind == 'guard_to_if':
             text = rw_guard_to_if(text, log)
         elif kind == 'inline_closure':
@@ -672,6 +710,26 @@ def build_fn(fs, repo, effectful, table_keys, canary=False):
         elif insr.where == 'at_end':
             off = st[body_close][2]
             txt = '\n' + txt
+        elif insr.where == 'at_end_before_tail':
+            # start of the last statement / tail expression of the body
+            depth = 0
+            k = body_close - 1
+            sa = k
+            while k > body_open:
+                t = st[k][1]
+                if st[k][0] == 'punct':
+                    if t in (')', ']', '}'):
+                        if t == '}' and depth == 0 and k != body_close - 1:
+                            break
+                        depth += 1
+                    elif t in ('(', '[', '{'):
+                        depth -= 1
+                    elif t == ';' and depth == 0:
+                        break
+                sa = k
+                k -= 1
+            off = st[sa][2]
+            txt = txt + ' '
         elif insr.where in ('loop_end', 'loop_start'):
             if insr.loop > len(loops):
                 raise AnchorLost('%s: loop %d not found' % (fs.fid, insr.loop))
